@@ -25,7 +25,7 @@ for pid in sorted(props):
     })
 m = {
     "version": 1,
-    "setup_cmd": "cd /verif/vx && CARGO_NET_OFFLINE=true cargo build --release --offline",
+    "setup_cmd": "cd /verif/vx && CARGO_NET_OFFLINE=true cargo build --release --offline && cd /verif/cex && cp -n /repo/Cargo.lock Cargo.lock; CARGO_NET_OFFLINE=true cargo build --offline",
     "hooks": {
         "guard": "zerv_verif",
         "enable": "no hooks: contracts live in /verif and are spliced into text re-extracted from /repo on every run; Kani harnesses use the public API",
@@ -36,6 +36,7 @@ m = {
     "engines": [
         {"name": "vx", "path": "/verif/vx", "serves_properties": sorted(props), "kind_free_text": "syn/prettyplease extractor + contract splicer; regex literal -> SMT-LIB RegLan"},
         {"name": "verus", "path": "/usr/local/bin/verus", "serves_properties": sorted(p for p in props if props[p].get("units")), "kind_free_text": "deductive verifier (z3 back end), single generated file per unit"},
+        {"name": "cex", "path": "/verif/cex", "serves_properties": sorted(p for p in props if props[p].get("units")), "kind_free_text": "bounded counterexample search on the real crate (path dependency on /repo): supplies concrete failing inputs for replay files, settles lost-anchor cases, bounded stand-in for assumed contracts; never counted as proof"},
         {"name": "rengine", "path": "/verif/lib/rengine.py", "serves_properties": sorted(p for p in props if props[p].get("regex")), "kind_free_text": "z3 / cvc5 emptiness queries on regular languages, witnesses replayed on the real binary"},
     ],
     "checks": checks,
